@@ -34,10 +34,18 @@ class Inst:
                 raise TypeError(f"unhashable type: {self.cls.__name__}")
             if not spec.opt('eq'):
                 return id(self)
-        return hash((self.cls, tuple(hash(v.product if isinstance(v, Factory) else v) for v in self.fields.values())))
+        return hash((self.cls, tuple(hash(self.fields[k].product if isinstance(self.fields[k], Factory) else self.fields[k]) for k in sorted(self.fields))))
 
     def __eq__(self, other):
-        return deep_typed_eq(self, other)[0]
+        # used when the model puts instances into sets / dict keys: Python's own == on the fields (NaN != NaN),
+        # which is what a dataclass's generated __eq__ does
+        if not isinstance(other, Inst) or self.cls is not other.cls or set(self.fields) != set(other.fields):
+            return False
+        unwrap = lambda v: v.product if isinstance(v, Factory) else v
+        try:
+            return all(bool(unwrap(self.fields[k]) == unwrap(other.fields[k])) for k in self.fields)
+        except Exception:
+            return False
 
 
 def _h(v):
@@ -63,6 +71,14 @@ def deep_typed_eq(exp, got, path='$'):
     """Return (ok, explanation). `exp` may contain Inst placeholders; `got` is what pane produced."""
     if isinstance(exp, Factory):
         return deep_typed_eq(exp.product, got, path)
+    if isinstance(exp, Inst) and isinstance(got, Inst):
+        if exp.cls is not got.cls or set(exp.fields) != set(got.fields):
+            return False, f"{path}: different model instances"
+        for name in exp.fields:
+            ok, why = deep_typed_eq(exp.fields[name], got.fields[name], f"{path}.{name}")
+            if not ok:
+                return ok, why
+        return True, ''
     if isinstance(exp, Inst):
         # generic subscripted classes create subclasses; compare through __origin__
         if type(got) is not exp.cls and getattr(type(got), '__origin__', None) is not exp.cls \
